@@ -33,10 +33,11 @@ REQUIRED_THEOREMS = [
     'kronecker_eq', 'isqrt_spec', 'iroot_spec', 'is_square_spec', 'factor_prime_power_sound',
     'ratrec_sound', 'powMod_eq',
 ]
-RULE = ('exhaustive: is_prime/next_prime/prev_prime for all x in [-50, X] (X = 10^5), '
-        'gcdext/invert/jacobi/kronecker/legendre for all pairs |a|,|b| <= R (quick R = 160, thorough R = 300) incl. '
-        'error cases, isqrt/is_square/iroot for all x <= 2*10^5 (n <= 6) plus every k-th x and all perfect '
-        'powers +-1 up to 10^6, factor_prime_power on all prime powers <= 10^6 plus sampled non-powers, '
+RULE = ('exhaustive: is_prime for all x in [-50, 10^5], next_prime/prev_prime for all x <= 4*10^4 (thorough 10^5) and every 5th above, '
+        'gcdext/invert/jacobi/kronecker/legendre for all pairs |a|,|b| <= R (quick R = 110, thorough R = 300) incl. '
+        'error cases, isqrt/is_square/iroot for all x <= 4*10^4 (thorough 2*10^5) plus every k-th x and all perfect '
+        'powers +-1 up to 10^6 (iroot n in -1..21), factor_prime_power on all proper prime powers <= 10^6, all primes < 3000, '
+        'a sample of larger primes and of non-powers, '
         'ratrec for all y <= 40 with all x and small N, D (incl. None / invalid), powmod on a small cube; '
         'random: 64..2048-bit arguments built to hit each branch (primes, Carmichael / strong pseudoprimes, '
         'prime powers with prime above/below 2^10, multiples, |b| = 2g, exact roots +-1, constructed '
@@ -166,11 +167,13 @@ def rand_prime(rng, bits):
 def gen_exhaustive(ctx):
     cases = []
     X = 100_000
+    XN = ctx.scale(40_000, 100_000)
     for x in range(-50, X + 1):
         cases.append(('is_prime', (x,), None))
-        cases.append(('next_prime', (x,), None))
-        cases.append(('prev_prime', (x,), None))
-    R = ctx.scale(160, 300)
+        if x <= XN or x % 5 == 0:
+            cases.append(('next_prime', (x,), None))
+            cases.append(('prev_prime', (x,), None))
+    R = ctx.scale(110, 300)
     fact = {y: orc.factorint(y) for y in range(1, R + 1)}
     oddpart = {}
     for y in range(1, R + 1):
@@ -187,46 +190,57 @@ def gen_exhaustive(ctx):
     for a in range(-60, 61):
         for b in range(-5, 60):
             cases.append(('legendre', (a, b), None))
-    # roots
+    # roots: all x <= XR, every step-th x up to 10^6, all perfect powers +-1 up to 10^6
     squares = set(i * i for i in range(0, 1100))
-    XR = 200_000
-    step = ctx.scale(7, 1)
+    XR = ctx.scale(40_000, 200_000)
+    step = ctx.scale(37, 3)
     xs = set(range(-40, XR + 1)) | set(range(XR, 1_000_001, step))
+    powers = set()
     for n in range(2, 21):
         r = 0
         while r ** n <= 1_000_100:
-            xs.update((r ** n - 1, r ** n, r ** n + 1))
+            powers.update((r ** n - 1, r ** n, r ** n + 1))
             r += 1
+    xs |= powers
     for x in sorted(xs):
         cases.append(('isqrt', (x,), None))
         cases.append(('is_square', (x,), x in squares))
-        if x <= XR or x % 3 == 0:
-            for n in (1, 2, 3, 5) if x > 5000 else (-1, 0, 1, 2, 3, 4, 5, 6, 7, 19, 20, 21):
-                cases.append(('iroot', (x, n), None))
+        if x <= 3000:
+            ns = (-1, 0, 1, 2, 3, 4, 5, 6, 7, 11, 12, 19, 20, 21)
+        elif x in powers:
+            ns = (1, 2, 3, 4, 5, 6, 7, 8, 9, 10, 13, 19, 20)
+        elif x <= XR:
+            ns = (2, 3) if x % 2 else (2 + x % 7,)
         else:
-            cases.append(('iroot', (x, 2 + x % 5), None))
-    # prime powers <= 10^6 and non-powers
+            ns = (2 + x % 5,)
+        for n in ns:
+            cases.append(('iroot', (x, n), None))
+    # prime powers <= 10^6 and non-powers (a prime > 2^10 costs ~170 is_prime calls in the code: sampled)
     sv = orc.sieve()
     rng = ctx.subrng('fpp-small')
+    nprimes = ctx.scale(1200, 12000)
+    primes_big = [p for p in range(3000, 1_000_001) if sv[p]]
+    chosen = set(rng.sample(primes_big, nprimes))
     for p in range(2, 1_000_001):
         if sv[p]:
             q, d = p, 1
             while q <= 1_000_000:
-                cases.append(('factor_prime_power', (q,), ('ok', (p, d))))
+                if d > 1 or p < 3000 or p in chosen:
+                    cases.append(('factor_prime_power', (q,), ('ok', (p, d))))
                 q *= p
                 d += 1
     for x in range(-10, 3000):
         cases.append(('factor_prime_power', (x,), None))
-    for _ in range(ctx.scale(20000, 100000)):
+    for _ in range(ctx.scale(6000, 60000)):
         cases.append(('factor_prime_power', (rng.randrange(2, 1_000_001),), None))
     # products of two primes around 2^10 (first prime not covered by the trial stage)
-    around = [p for p in range(900, 1200) if sv[p]]
+    around = [p for p in range(ctx.scale(990, 900), ctx.scale(1070, 1200)) if sv[p]]
     for p in around:
         for q in around:
             if p <= q:
                 cases.append(('factor_prime_power', (p * q,), ('err', 'ValueError') if p != q else ('ok', (p, 2))))
     # ratrec, small exhaustive
-    for y in range(-2, ctx.scale(28, 41)):
+    for y in range(-2, ctx.scale(24, 41)):
         for x in range(-3, y + 4):
             opts = [None] + list(range(-1, 6))
             for N in opts:
